@@ -666,6 +666,13 @@ def estab_cases(rng, tier: str) -> list[dict]:
     for h, refresh, api in [(3, False, [(1500, ['queueRefresh'])]), (3, True, [(1500, ['queueRefresh'])]), (9, False, [(500, ['queueRefresh']), (4000, ['announce', 2])]),
                             (9, True, [(100, ['announce', 3]), (3100, ['announce', 1]), (6100, ['queueRefresh'])]), (90, False, [(1000, ['queueRefresh'])])]:  # fmt: skip
         cases.append({'local': h, 'peer': 180, 'arrivals': [h * 1000 // 3 * i for i in range(1, 7)], 'kind': 'keepalive', 'routes': 1, 'api': api, 'cfg': {'refresh': refresh}})
+    # a peer that keeps the session alive with UPDATEs only (RFC 4271 4.4: KEEPALIVE *or* UPDATE restart the hold timer),
+    # on a neighbor which stores nothing of them (`adj-rib-in false`, no API consumer): the messages still count
+    for h in (3, 9):
+        k = h * 1000 * 2 // 3
+        for cfg in ({'adj_rib_in': False}, {'adj_rib_in': True}):
+            cases.append({'local': h, 'peer': 180, 'arrivals': [k * i for i in range(1, 7)], 'kind': 'update', 'routes': 1, 'cfg': dict(cfg)})
+            cases.append({'local': h, 'peer': 180, 'arrivals': [k, 2 * k], 'kind': 'update', 'routes': 0, 'cfg': dict(cfg)})  # ... then silence
     if tier != 'quick':
         for _ in range(60):
             h = rng.choice([3, 4, 9, 30])
